@@ -16,40 +16,13 @@
        Netlist._kill leaves of the equations: V -> 0 V, I -> 0 A, ICs -> 0)
        sum to the full response for any assignment of sources to groups.
    Arbitrary characteristic-0 field, arbitrary node / branch indices. *)
-Require Import LT.FieldSec LT.Circuit LT.LinearSys Gen.StampsGen Gen.C01model.
+Require Import LT.FieldSec LT.Circuit LT.LinearSys Gen.StampsGen Gen.C01model Gen.C03defs.
 Local Open Scope Z_scope.
 Local Open Scope bool_scope.
 
 Section C03.
 Variable K : fld.
 Add Field KFs3 : (fth K).
-
-(* the context with the source value / initial-condition parameters replaced *)
-Definition with_src (c : sctx K) (a b : K) : sctx K :=
-  SCtx K (kind c) (typ c) (p0 c) (p1 c) (p2 c) (p3 c) (c0 c) (c1 c)
-       (bown c) (bextra c) (bctrl c) (bL1 c) (bL2 c)
-       (has_ic c) (ctrl_is_vsrc c) (has_arg1 c) (tp_has_src c)
-       (fun n => match n with pIsc => a | pVoc => b | _ => par c n end).
-
-Definition sres3 (R : list (upd K) -> list (upd K) -> list (upd K) -> Prop) (s1 s2 s12 : sres K) : Prop :=
-  match s1, s2, s12 with
-  | SOk a, SOk b, SOk c => R a b c
-  | SErr, SErr, SErr => True
-  | _, _, _ => False
-  end.
-Definition sres2 (R : list (upd K) -> list (upd K) -> Prop) (s1 s2 : sres K) : Prop :=
-  match s1, s2 with
-  | SOk a, SOk b => R a b
-  | SErr, SErr => True
-  | _, _ => False
-  end.
-
-(* what has to hold of one stamp function *)
-Definition src_linear (st : sctx K -> sres K) : Prop :=
-  (forall c a1 b1 a2 b2,
-     sres3 (@add_rel K) (st (with_src c a1 b1)) (st (with_src c a2 b2)) (st (with_src c (fadd a1 a2) (fadd b1 b2)))) /\
-  (forall c k a b,
-     sres2 (scale_rel k) (st (with_src c a b)) (st (with_src c (fmul k a) (fmul k b)))).
 
 Ltac destruct_atom b :=
   lazymatch b with
@@ -81,35 +54,35 @@ Ltac close_rel :=
 Ltac solve_src :=
   split; intros; match goal with cc : sctx K |- _ => prep cc end; case_guards; close_rel.
 
-Lemma src_linear_RC : src_linear stamp_RC. Proof. unfold stamp_RC. solve_src. Qed.
-Lemma src_linear_L : src_linear stamp_L. Proof. unfold stamp_L. solve_src. Qed.
-Lemma src_linear_V : src_linear stamp_V. Proof. unfold stamp_V. solve_src. Qed.
-Lemma src_linear_AM : src_linear stamp_AM. Proof. unfold stamp_AM. solve_src. Qed.
-Lemma src_linear_I : src_linear stamp_I. Proof. unfold stamp_I. solve_src. Qed.
-Lemma src_linear_VCVS : src_linear stamp_VCVS. Proof. unfold stamp_VCVS. solve_src. Qed.
-Lemma src_linear_VCCS : src_linear stamp_VCCS. Proof. unfold stamp_VCCS. solve_src. Qed.
-Lemma src_linear_CCCS : src_linear stamp_CCCS. Proof. unfold stamp_CCCS. solve_src. Qed.
-Lemma src_linear_CCVS : src_linear stamp_CCVS. Proof. unfold stamp_CCVS. solve_src. Qed.
-Lemma src_linear_K : src_linear stamp_K. Proof. unfold stamp_K. solve_src. Qed.
-Lemma src_linear_TF : src_linear stamp_TF. Proof. unfold stamp_TF. solve_src. Qed.
-Lemma src_linear_GY : src_linear stamp_GY. Proof. unfold stamp_GY. solve_src. Qed.
-Lemma src_linear_TL : src_linear stamp_TL. Proof. unfold stamp_TL. solve_src. Qed.
-Lemma src_linear_TPA : src_linear stamp_TPA. Proof. unfold stamp_TPA. solve_src. Qed.
-Lemma src_linear_TPB : src_linear stamp_TPB. Proof. unfold stamp_TPB, stamp_TPA. solve_src. Qed.
-Lemma src_linear_TPG : src_linear stamp_TPG. Proof. unfold stamp_TPG, stamp_TPA. solve_src. Qed.
-Lemma src_linear_TPH : src_linear stamp_TPH. Proof. unfold stamp_TPH, stamp_TPA. solve_src. Qed.
-Lemma src_linear_TPY : src_linear stamp_TPY. Proof. unfold stamp_TPY. solve_src. Qed.
-Lemma src_linear_TPZ : src_linear stamp_TPZ. Proof. unfold stamp_TPZ, stamp_TPY. solve_src. Qed.
-Lemma src_linear_TR : src_linear stamp_TR. Proof. unfold stamp_TR. solve_src. Qed.
-Lemma src_linear_SPpp : src_linear stamp_SPpp. Proof. unfold stamp_SPpp. solve_src. Qed.
-Lemma src_linear_SPpm : src_linear stamp_SPpm. Proof. unfold stamp_SPpm. solve_src. Qed.
-Lemma src_linear_SPppp : src_linear stamp_SPppp. Proof. unfold stamp_SPppp. solve_src. Qed.
-Lemma src_linear_SPpmm : src_linear stamp_SPpmm. Proof. unfold stamp_SPpmm. solve_src. Qed.
-Lemma src_linear_SPppm : src_linear stamp_SPppm. Proof. unfold stamp_SPppm. solve_src. Qed.
-Lemma src_linear_RV : src_linear stamp_RV. Proof. unfold stamp_RV. solve_src. Qed.
-Lemma src_linear_Dummy : src_linear stamp_Dummy. Proof. unfold stamp_Dummy. solve_src. Qed.
+Lemma src_linear_RC : src_linear (K:=K) stamp_RC. Proof. unfold stamp_RC. solve_src. Qed.
+Lemma src_linear_L : src_linear (K:=K) stamp_L. Proof. unfold stamp_L. solve_src. Qed.
+Lemma src_linear_V : src_linear (K:=K) stamp_V. Proof. unfold stamp_V. solve_src. Qed.
+Lemma src_linear_AM : src_linear (K:=K) stamp_AM. Proof. unfold stamp_AM. solve_src. Qed.
+Lemma src_linear_I : src_linear (K:=K) stamp_I. Proof. unfold stamp_I. solve_src. Qed.
+Lemma src_linear_VCVS : src_linear (K:=K) stamp_VCVS. Proof. unfold stamp_VCVS. solve_src. Qed.
+Lemma src_linear_VCCS : src_linear (K:=K) stamp_VCCS. Proof. unfold stamp_VCCS. solve_src. Qed.
+Lemma src_linear_CCCS : src_linear (K:=K) stamp_CCCS. Proof. unfold stamp_CCCS. solve_src. Qed.
+Lemma src_linear_CCVS : src_linear (K:=K) stamp_CCVS. Proof. unfold stamp_CCVS. solve_src. Qed.
+Lemma src_linear_K : src_linear (K:=K) stamp_K. Proof. unfold stamp_K. solve_src. Qed.
+Lemma src_linear_TF : src_linear (K:=K) stamp_TF. Proof. unfold stamp_TF. solve_src. Qed.
+Lemma src_linear_GY : src_linear (K:=K) stamp_GY. Proof. unfold stamp_GY. solve_src. Qed.
+Lemma src_linear_TL : src_linear (K:=K) stamp_TL. Proof. unfold stamp_TL. solve_src. Qed.
+Lemma src_linear_TPA : src_linear (K:=K) stamp_TPA. Proof. unfold stamp_TPA. solve_src. Qed.
+Lemma src_linear_TPB : src_linear (K:=K) stamp_TPB. Proof. unfold stamp_TPB, stamp_TPA. solve_src. Qed.
+Lemma src_linear_TPG : src_linear (K:=K) stamp_TPG. Proof. unfold stamp_TPG, stamp_TPA. solve_src. Qed.
+Lemma src_linear_TPH : src_linear (K:=K) stamp_TPH. Proof. unfold stamp_TPH, stamp_TPA. solve_src. Qed.
+Lemma src_linear_TPY : src_linear (K:=K) stamp_TPY. Proof. unfold stamp_TPY. solve_src. Qed.
+Lemma src_linear_TPZ : src_linear (K:=K) stamp_TPZ. Proof. unfold stamp_TPZ, stamp_TPY. solve_src. Qed.
+Lemma src_linear_TR : src_linear (K:=K) stamp_TR. Proof. unfold stamp_TR. solve_src. Qed.
+Lemma src_linear_SPpp : src_linear (K:=K) stamp_SPpp. Proof. unfold stamp_SPpp. solve_src. Qed.
+Lemma src_linear_SPpm : src_linear (K:=K) stamp_SPpm. Proof. unfold stamp_SPpm. solve_src. Qed.
+Lemma src_linear_SPppp : src_linear (K:=K) stamp_SPppp. Proof. unfold stamp_SPppp. solve_src. Qed.
+Lemma src_linear_SPpmm : src_linear (K:=K) stamp_SPpmm. Proof. unfold stamp_SPpmm. solve_src. Qed.
+Lemma src_linear_SPppm : src_linear (K:=K) stamp_SPppm. Proof. unfold stamp_SPppm. solve_src. Qed.
+Lemma src_linear_RV : src_linear (K:=K) stamp_RV. Proof. unfold stamp_RV. solve_src. Qed.
+Lemma src_linear_Dummy : src_linear (K:=K) stamp_Dummy. Proof. unfold stamp_Dummy. solve_src. Qed.
 
-Theorem stamp_src_linear (cl : cname) : src_linear (stamp_of cl).
+Theorem stamp_src_linear (cl : cname) : src_linear (K:=K) (stamp_of cl).
 Proof.
   destruct cl; cbn [stamp_of];
   first [ exact src_linear_RC | exact src_linear_L | exact src_linear_V | exact src_linear_AM | exact src_linear_I
@@ -158,7 +131,6 @@ Proof.
 Qed.
 
 End C03.
-Arguments with_src {K}. Arguments sres3 {K}. Arguments sres2 {K}. Arguments src_linear {K}.
 
 Print Assumptions stamp_src_linear.
 Print Assumptions stamp_matrix_indep_sources.
